@@ -41,6 +41,35 @@ def key_is_injective(key: Optional[ast.AST]) -> (bool, str):
     return False, "key %s is not recognised as injective" % unparse(key)
 
 
+def _memo_target(prog, f, depth: int = 0):
+    """`f` when it does the work itself; the wrapped function when every return of `f` forwards its argument to one
+    function `g`, directly or through a module-level memo `X = lru_cache(..)(g)` / `X = cache(g)`"""
+    if depth > 3:
+        return f
+    rets = [r for r in own_nodes(f.node) if isinstance(r, ast.Return) and r.value is not None]
+    targets = set()
+    for r in rets:
+        v = r.value
+        if not (isinstance(v, ast.Call) and isinstance(v.func, ast.Name) and len(v.args) == 1 and isinstance(v.args[0], ast.Name) and v.args[0].id in f.params and not v.keywords):
+            return f
+        nm = v.func.id
+        g = prog.functions.get(f.module.name + "." + nm)
+        if g is None:
+            a = f.module.assigns.get(nm)
+            inner = None
+            if isinstance(a, ast.Call) and len(a.args) == 1 and isinstance(a.args[0], ast.Name):
+                fn = a.func.func if isinstance(a.func, ast.Call) else a.func
+                if unparse(fn).split(".")[-1] in ("lru_cache", "cache"):
+                    inner = a.args[0].id
+            g = prog.functions.get(f.module.name + "." + inner) if inner else None
+        if g is None:
+            return f
+        targets.add(g.qualname)
+    if len(targets) != 1:
+        return f
+    return _memo_target(prog, prog.functions[targets.pop()], depth + 1)
+
+
 def rule_o6(ctx) -> None:
     """The normal form of a string must not depend on what was compared before: nothing reachable from the comparison
     mutates a container shared between calls (module level, mutable default, memoised result)."""
@@ -218,7 +247,7 @@ def check(ctx) -> None:
     # O5: every leaf of the recursion is canonicalised
     ctx.rule("C17-O5", "every return of normalize_smiles is a join of recursive results or the RDKit canonical form of the molecule", 2)
     CANON = "synrbl.SynUtils.chem_utils.canon_smiles"
-    cs = prog.func(CANON)
+    cs = _memo_target(prog, prog.func(CANON))
     canon_ok = any(isinstance(c.func, ast.Attribute) and c.func.attr in ("MolToSmiles", "CanonSmiles") for c in calls(cs))
     ctx.require(canon_ok, "canon_smiles no longer produces RDKit SMILES")
 
